@@ -104,7 +104,7 @@ func eventHash(res *Result) uint64 {
 	for _, e := range res.Events {
 		fmt.Fprintf(h, "%s|%s|%v;", e.T, e.Kind, e.Args)
 	}
-	fmt.Fprintf(h, "%d|%d|%v|%v|%v", res.Status, res.Clock, res.Horizon, res.Blocked, res.Leaked)
+	fmt.Fprintf(h, "%d|%d|%v|%v|%v|%d", res.Status, res.Clock, res.Horizon, res.Blocked, res.Leaked, res.EarlyFires)
 	for _, p := range res.Panics {
 		fmt.Fprintf(h, "|%s:%s", p.Thread, p.Msg)
 	}
